@@ -70,15 +70,6 @@ def _cmp(node, what):
     return node.left, node.ops[0], node.comparators[0]
 
 
-def _pixel(tree):
-    fn = find_func(tree, 'ignore_pixel_data')
-    p = _one_arg(fn)
-    l, op, r = _cmp(_single_return(fn), fn.name)
-    if not (isinstance(op, ast.Eq) and _is_attr_chain(l, [p, 'tag'])):
-        raise TableError('ignore_pixel_data: expected  return %s.tag == pydicom.tag.Tag(g, e)' % p)
-    return _tag_call(r, fn.name)
-
-
 def _overlay(tree):
     fn = find_func(tree, 'ignore_overlay_data')
     p = _one_arg(fn)
@@ -96,22 +87,25 @@ def _overlay(tree):
     return mask, grp, _int(r2, fn.name)
 
 
-def _lut(tree):
-    fn = find_func(tree, 'ignore_color_lut_data')
+def _group_elems(tree, fname):
+    """return (elem.tag.group == <g> and elem.tag.elem in (<e>, ...))  ->  (g, [e, ...])"""
+    fn = find_func(tree, fname)
     p = _one_arg(fn)
     e = _single_return(fn)
     if not (isinstance(e, ast.BoolOp) and isinstance(e.op, ast.And) and len(e.values) == 2):
-        raise TableError('ignore_color_lut_data: expected  <group test> and <elem test>')
+        raise TableError('%s: expected  <group test> and <elem test>' % fname)
     l, op, r = _cmp(e.values[0], fn.name)
     if not (isinstance(op, ast.Eq) and _is_attr_chain(l, [p, 'tag', 'group'])):
-        raise TableError('ignore_color_lut_data: expected  %s.tag.group == <group>' % p)
+        raise TableError('%s: expected  %s.tag.group == <group>' % (fname, p))
     grp = _int(r, fn.name)
     l2, op2, r2 = _cmp(e.values[1], fn.name)
     if not (isinstance(op2, ast.In) and _is_attr_chain(l2, [p, 'tag', 'elem']) and isinstance(r2, (ast.Tuple, ast.List, ast.Set))):
-        raise TableError('ignore_color_lut_data: expected  %s.tag.elem in (<elems>)' % p)
+        raise TableError('%s: expected  %s.tag.elem in (<elems>)' % (fname, p))
     elems = [_int(x, fn.name) for x in r2.elts]
     if not elems:
-        raise TableError('ignore_color_lut_data: empty element list')
+        raise TableError('%s: empty element list' % fname)
+    if grp > 0xffff or any(x > 0xffff for x in elems):
+        raise TableError('%s: tag component out of range' % fname)
     return grp, elems
 
 
@@ -202,9 +196,9 @@ def emit(src):
     # every rule name must be defined exactly once and not rebound at module level
     for r in RULE_NAMES:
         find_func(t, r)
-    pg, pe = _pixel(t)
+    pgrp, pelems = _group_elems(t, 'ignore_pixel_data')
     omask, ogrp, oelem = _overlay(t)
-    lgrp, lelems = _lut(t)
+    lgrp, lelems = _group_elems(t, 'ignore_color_lut_data')
     pm, pr = _private(t)
     rules = _names_tuple(t, 'default_ignore_rules', set(RULE_NAMES), 'ignore rule')
 
@@ -247,8 +241,9 @@ def emit(src):
 
     out = []
     out.append('From DV Require Import Common.Str.\n')
-    out.append('(* ignore_pixel_data: elem.tag == Tag(group, elem) *)')
-    out.append('Definition pixel_tag : N * N := (%s, %s).' % (cN(pg), cN(pe)))
+    out.append('(* ignore_pixel_data: group == g and elem in (...) *)')
+    out.append('Definition pixel_group : N := %s.' % cN(pgrp))
+    out.append('Definition pixel_elems : list N := %s.' % clist(cN(x) for x in pelems))
     out.append('(* ignore_overlay_data: group & mask == group0 and elem == elem0 *)')
     out.append('Definition overlay_mask : N := %s.' % cN(omask))
     out.append('Definition overlay_group : N := %s.' % cN(ogrp))
